@@ -557,7 +557,7 @@ MUTATIONS += [
     dict(id="w8-c20h", patch="seeded/C20h/patch.diff", expect={'C20': ['R14c:']}, allow_others=True),
     dict(id="q-r6g-generator-with-finally", quiet=True, patch="seeded/C18f/patch.diff", edits=[("cirkit/pipeline.py", "            token = _PIPELINE_CONTEXT.set(self)\n            yield\n            _PIPELINE_CONTEXT.reset(token)", "            token = _PIPELINE_CONTEXT.set(self)\n            try:\n                yield\n            finally:\n                _PIPELINE_CONTEXT.reset(token)")], expect={}, allow_analysis_error=True),
     dict(id="q-r13h-lookup-along-ordering", quiet=True, patch="seeded/C20g/patch.diff", edits=[("cirkit/templates/pgms.py", "    input_sls = [sl for _, sl in sorted(zip(ordering, input_sls), key=lambda t: t[0])]", "    input_sls = [input_sls[v] for v in ordering]")], expect={}, allow_analysis_error=True),
-    dict(id="r9n-new-refusal-next-to-known-one", file="cirkit/templates/region_graph/graph.py", old="            num_units = num_sum_units if self.region_outputs(rgn) else num_classes\n            kronecker = KroneckerLayer(", new="            if len(rgn_partitioning) > 2:\n                raise ValueError(\"Cannot build a Tucker layer with more than two inputs\")\n            num_units = num_sum_units if self.region_outputs(rgn) else num_classes\n            kronecker = KroneckerLayer(", expect={"C16": ["R9n:cirkit.templates.region_graph.graph.RegionGraph.build_circuit:refuses:build_tucker_:len(rgn_partitioning) > 2"]}),
+    dict(id="r9n-new-refusal-next-to-known-one", file="cirkit/templates/region_graph/graph.py", old="            num_units = num_sum_units if self.region_outputs(rgn) else num_classes\n            kronecker = KroneckerLayer(", new="            if len(rgn_partitioning) > 2:\n                raise ValueError(\"Cannot build a Tucker layer with more than two inputs\")\n            num_units = num_sum_units if self.region_outputs(rgn) else num_classes\n            kronecker = KroneckerLayer(", expect={"C16": ["R9n:cirkit.templates.region_graph.graph.RegionGraph.build_circuit:refuses:build_tucker_:Cannot build a Tucker layer with"]}),
     dict(id="r13i-binomial-one-state-too-many", file="cirkit/templates/tensor_factorizations.py", old='            factor_dim_kwargs = {"total_count": dim - 1}', new='            factor_dim_kwargs = {"total_count": dim}', expect={"C12": ["R13i:"], "C20": ["R13i:"]}),
     dict(id="r13i-image-binomial-256", file="cirkit/templates/data_modalities.py", old='            input_kwargs = {"total_count": 255}', new='            input_kwargs = {"total_count": 256}', expect={"C12": ["R13i:cirkit.templates.data_modalities.image_data:states-agree"], "C20": ["R13i:"]}, allow_others=True),
     dict(id="r11n-lse-plain-log", file=SEMI, old="        return safelog(func_exp_xs) + reduced_max_xs", new="        return torch.log(func_exp_xs) + reduced_max_xs", expect={"C13": ["R11n:cirkit.backend.torch.semiring.LSESumSemiring.apply_reduce"]}),
